@@ -435,6 +435,21 @@ def gen_tenpy(ctx, rng):
         except Exception:
             raise _Skip()
         lat = out[0] if isinstance(out, tuple) else out
+        if rng.random() < 0.3 and kd not in ('Irregular', 'Helical'):
+            # a segment of the lattice (carries segment_first_last and bc_MPS='segment')
+            N = lat.N_sites
+            try:
+                if lat.bc_MPS == 'infinite' and rng.random() < 0.5:
+                    seg = lat.extract_segment(enlarge=int(rng.integers(1, 3)))
+                else:
+                    first = int(rng.integers(0, N - 1))
+                    last = int(rng.integers(first + 1, N if lat.bc_MPS == 'finite' else 2 * N))
+                    seg = lat.extract_segment(first, last)
+                seg.test_sanity()
+            except Exception:
+                raise _Skip()
+            ctx.count('gen.segment_lattice')
+            return seg, 'lattice'
         return lat, 'lattice'
     if k == 12:
         import checks.C10 as C10
@@ -444,6 +459,17 @@ def gen_tenpy(ctx, rng):
         except C10._Skip:
             raise _Skip()
         m = out[0] if isinstance(out, tuple) else out
+        if rng.random() < 0.25 and hasattr(m, 'extract_segment'):
+            N = m.lat.N_sites
+            try:
+                first = int(rng.integers(0, N - 1))
+                last = int(rng.integers(first + 1, N if m.lat.bc_MPS == 'finite' else 2 * N))
+                seg = m.extract_segment(first, last)
+                seg.test_sanity()
+            except Exception:
+                raise _Skip()
+            ctx.count('gen.segment_model')
+            return seg, 'model'
         return m, 'model'
     if k == 13:
         from tenpy.networks import terms as T
@@ -559,12 +585,16 @@ def gen_graph(ctx, rng, depth=0, pool=None, kinds=None):
 # ------------------------------------------------------------------------------------------------
 # routes
 # ------------------------------------------------------------------------------------------------
-def route_hdf5(obj, fmt):
+def route_hdf5(obj, fmt, at_root=False):
     import h5py
     from tenpy.tools import hdf5_io
     name = 'verif-%d-%d.h5' % (os.getpid(), id(obj))
     with h5py.File(name, 'w', driver='core', backing_store=False) as f:
         sel = None if fmt is None else {'LegCharge': fmt}
+        if at_root:
+            # the default path of Hdf5Saver.save / Hdf5Loader.load is the root group of the file
+            hdf5_io.Hdf5Saver(f, sel).save(obj)
+            return hdf5_io.Hdf5Loader(f).load()
         hdf5_io.Hdf5Saver(f, sel).save(obj, '/data')
         return hdf5_io.Hdf5Loader(f).load('/data')
 
@@ -573,6 +603,10 @@ def route_file(obj, ext, tmp):
     from tenpy.tools import hdf5_io
     fn = os.path.join(tmp, 'x' + ext)
     # (the root of a file has to be a group: the documented usage saves a dictionary)
+    if type(obj) is dict and obj and all(isinstance(k, str) for k in obj) and len(obj) % 2 == 0:
+        # the documented usage: a dictionary of results is the root of the file
+        hdf5_io.save(obj, fn)
+        return hdf5_io.load(fn)
     hdf5_io.save({'data': obj}, fn)
     return hdf5_io.load(fn)['data']
 
@@ -612,6 +646,11 @@ def observables(obj):
         return ('MPS', [dense.stored_tensor(obj, i) for i in range(obj.L)], [np.asarray(s) for s in obj._S], tuple(map(tuple, obj.form)), obj.bc, obj.norm)
     if isinstance(obj, MPO) and obj.bc == 'finite':
         return ('MPO', dense.mpo_to_matrix(obj), obj.explicit_plus_hc)
+    lat = obj if hasattr(obj, 'mps2lat_idx') else getattr(obj, 'lat', None)
+    if lat is not None and hasattr(lat, 'mps2lat_idx') and hasattr(lat, 'segment_first_last'):
+        # documented public attribute "tuple of int", handed on to MPS.extract_segment(first, last) by users
+        fl = lat.segment_first_last
+        return ('segment_first_last', tuple(type(x).__name__ for x in fl), tuple(int(x) for x in fl), lat.bc_MPS, int(lat.N_sites))
     return None
 
 
@@ -622,7 +661,12 @@ def roundtrip(ctx, obj, route, fmt, kinds, case, tmp=None):
     ctx.count('route.' + route)
     try:
         if route == 'hdf5':
-            new = route_hdf5(obj, fmt)
+            at_root = bool(case.get('at_root'))
+            if at_root:
+                ctx.count('route.hdf5_at_root')
+                if 'cycle' in kinds:
+                    ctx.count('route.hdf5_at_root_cyclic')
+            new = route_hdf5(obj, fmt, at_root)
         elif route == 'pickle':
             new = pickle.loads(pickle.dumps(obj, protocol=int(case.get('protocol', pickle.HIGHEST_PROTOCOL))))
         elif route == 'deepcopy':
@@ -768,6 +812,8 @@ def case_graph(ctx, i):
             if route == 'file' and tmp is None:
                 tmp = tempfile.mkdtemp(prefix='vf17-')
             case['route'] = [route, fmt]
+            # the root of an HDF5 file must be a group: containers and objects with a format of their own
+            case['at_root'] = bool(route == 'hdf5' and rng.random() < 0.4 and (type(obj) in (list, dict) or _is_tenpy(obj)))
             if fmt == 'flat' and any(k in ('Array', 'LegPipe', 'site', 'MPS', 'MPO', 'lattice', 'model') for k in kinds):
                 # 'flat' is documented as insufficient to recover the blocks: only meaningful for plain LegCharges
                 ctx.count('route.flat_skipped')
@@ -826,6 +872,8 @@ def case_reflect(ctx, i):
         case = {'class': name}
         for route, fmt in [('hdf5', None), ('hdf5', 'compact'), ('pickle', None), ('deepcopy', None)]:
             case['route'] = [route, fmt]
+            # the root of an HDF5 file must be a group: containers and objects with a format of their own
+            case['at_root'] = bool(route == 'hdf5' and rng.random() < 0.4 and (type(obj) in (list, dict) or _is_tenpy(obj)))
             new = roundtrip(ctx, obj, route, fmt, kinds, case)
             if new is not None:
                 judge(ctx, obj, new, route, fmt, kinds, case)
